@@ -276,7 +276,12 @@ def rule_over(ctx: Ctx) -> RuleReport:
                 zf_names = {it.optional_vars.id for w in walk_own(fi.node) if isinstance(w, ast.With) for it in w.items if isinstance(it.optional_vars, ast.Name) and "ZipFile" in norm(it.context_expr)}
                 zip_call = any(isinstance(c.func, ast.Attribute) and c.func.attr in ("read", "open") and norm(c.func.value) in zf_names for c in guarded_calls)
                 if not zip_call:
-                    rep.fail(Finding("C08-OVER", fi.module.rel, fi.qual, "except " + ",".join(names), "an exception is converted into the file-encrypted error around calls for which no encryption-only exception is known", line=h.lineno))
+                    # an exception class of the library itself that is raised only under the test for the 7z AES coder is encryption-only
+                    proof = _encryption_only_classes(ctx, names)
+                    if proof:
+                        rep.ok({"raise_site": fi.key, "under": "except " + ",".join(names), "encryption_only": proof})
+                    else:
+                        rep.fail(Finding("C08-OVER", fi.module.rel, fi.qual, "except " + ",".join(names), "an exception is converted into the file-encrypted error around calls for which no encryption-only exception is known", line=h.lineno))
                     continue
                 zr = zr or _zipfile_raises()
                 bad = []
@@ -300,8 +305,88 @@ def rule_over(ctx: Ctx) -> RuleReport:
             rep.fail(Finding("C08-OVER", fi.module.rel, fi.qual, short(r), f"`raise {ERR}` is not control dependent on a detector test (conditions: {[str(c) for c in conds] + opaque})", line=r.lineno))
     if n_sites < 14:
         raise AnalysisError(f"C08-OVER: only {n_sites} raise sites of {ERR} found (floor 14)")
+    # 7z: wherever the decoder meets the AES coder (file data or, with encrypted file names, the header that the constructor decodes), the
+    # exception it raises must reach the caller as the file-encrypted error: a class of its own, converted before the generic Bad7zFile handler
+    SZ_ = X + "util/sevenzip.py"
+    ARCH_ = X + "archive_extractor.py"
+    aes_raises = []
+    for g in ctx.p.module(SZ_).functions.values():
+        for r in [n for n in walk_own(g.node) if isinstance(n, ast.Raise) and n.exc is not None]:
+            conds, opaque, _ = path_conditions(g.node, r)
+            if any("CODER_AES_PREFIX" in str(c) and not str(c).startswith("not ") for c in list(conds) + list(opaque)):
+                aes_raises.append((g, r, raised_class(r)))
+    if not aes_raises:
+        raise AnalysisError("C08-OVER: the 7z decoder no longer raises under the AES coder test")
+    ex7 = ctx.p.func(ARCH_, "_extract_from_7z_optimized")
+    outer = [t for t in walk_own(ex7.node) if isinstance(t, ast.Try) and any("SevenZipFile" in norm(st) for st in t.body)]
+    if not outer:
+        raise AnalysisError("C08-OVER: the try around SevenZipFile(...) in _extract_from_7z_optimized was not found")
+    for g, r, cls in aes_raises:
+        converted = False
+        for h in outer[0].handlers:
+            hn = [(dotted(e) or "").split(".")[-1] for e in (h.type.elts if isinstance(h.type, ast.Tuple) else [h.type])] if h.type is not None else ["BaseException"]
+            if cls in hn:
+                last = h.body[-1] if h.body else None
+                converted = isinstance(last, ast.Raise) and raised_class(last) == ERR
+                break
+            if any(_repo_subclass(ctx, cls, x) for x in hn):
+                break  # a broader handler comes first
+        if converted:
+            rep.ok({"7z_aes_coder": f"{g.qual}: raise {cls}", "reaches_caller_as": ERR})
+        else:
+            rep.fail(Finding("C08-OVER", SZ_, g.qual, f"AES coder -> {cls}", f"when the decoder meets the 7z AES coder it raises {cls}, which _extract_from_7z_optimized does not turn into {ERR}: an archive with encrypted file names (the header itself is AES-coded and is decoded by the constructor, before needs_password() can be asked) is reported as an invalid archive", line=r.lineno))
     # family errors must not be converted into something else by the per-extractor wrappers (C01-WRAP) — referenced, not re-checked
     return rep
+
+
+def _repo_subclass(ctx, cls: str, base: str) -> bool:
+    """cls is (transitively) derived from base, by the class definitions of the library; Exception / BaseException are everybody's base."""
+    if base in ("Exception", "BaseException") or cls == base:
+        return True
+    seen = set()
+    work = [cls]
+    while work:
+        c = work.pop()
+        if c in seen:
+            continue
+        seen.add(c)
+        for m in ctx.p.modules.values():
+            k = m.classes.get(c)
+            if k is not None:
+                for b in k.bases:
+                    b = b.split(".")[-1]
+                    if b == base:
+                        return True
+                    work.append(b)
+    return False
+
+
+def _encryption_only_classes(ctx, names):
+    """Every named class is defined in the library and each of its raise sites is control dependent on a test of the AES coder id
+    (`<coder>.startswith(CODER_AES_PREFIX)`); returns the list of proving sites, or None."""
+    sites = []
+    for nm in names:
+        defs = [(m, c) for m in ctx.p.modules.values() for c in m.classes.values() if c.name == nm]
+        if not defs:
+            return None
+        raises = []
+        for g in ctx.p.all_functions():
+            for r in [n for n in walk_own(g.node) if isinstance(n, ast.Raise) and raised_class(n) == nm]:
+                raises.append((g, r))
+        if not raises:
+            return None
+        for g, r in raises:
+            conds, opaque, _ = path_conditions(g.node, r)
+            cs = [str(c) for c in conds] + list(opaque)
+            if not any("CODER_AES_PREFIX" in c and not c.startswith("not ") for c in cs):
+                return None
+            sites.append(f"{g.qual}: raise {nm} under {[c for c in cs if 'CODER_AES_PREFIX' in c][0]}")
+        # the constant is the 7z AES-256 + SHA-256 coder id prefix (7-Zip Methods.txt: 06F10701)
+        for m, c in defs:
+            v = ctx.folder.fold(m, ast.Name(id="CODER_AES_PREFIX", ctx=ast.Load()))
+            if not (isinstance(v, bytes) and v[:3] == bytes.fromhex("06f107")):
+                return None
+    return sites
 
 
 def _pos_exits(body, guards):
